@@ -49,7 +49,8 @@ RemoveAt(s, i) == SubSeq(s, 1, i - 1) \o SubSeq(s, i + 1, Len(s))
 Adv(op) == /\ budget > 0 /\ (Canonical => phase = "adv")
            /\ budget' = budget - 1 /\ hist' = Append(hist, op)
            /\ UNCHANGED <<sndSeq, rcvSeq, delivered, err, phase>>
-Flip(i, how) == /\ i \in 1..Len(wire) /\ wire[i].id # 0
+\* (only a record that is still intact: a second change could restore the original bytes)
+Flip(i, how) == /\ i \in 1..Len(wire) /\ wire[i].id # 0 /\ wire[i].good
                 /\ wire' = Replace(wire, i, [wire[i] EXCEPT !.good = FALSE])
                 /\ Adv([op |-> "flip", i |-> i, how |-> how])
 Drop(i) == i \in 1..Len(wire) /\ wire' = RemoveAt(wire, i) /\ Adv([op |-> "drop", i |-> i])
